@@ -22,6 +22,7 @@ RULE = ('Seeded structured programs (C01 generator, extended with label/jump/jum
         'by blanks) at any subset of the white-space gaps outside string literals. Oracle: parse_script(rewritten) == parse_script(original) '
         '(deep equality); parsing A, B, A again gives equal models; a sample is re-parsed in a fresh process. Non-trivial: the rewrite '
         'changed the text and contains at least one continuation or chunk cut. Distinct by rewritten text.')
+RULE += ' Also: white space / continuation directly after `[` of a bracketed name, lines that hold only the continuation character, LF and CRLF mixed in one text; the models of separate parse_script calls share no objects and scribbling over a returned model does not change the next parse.'
 ASSUMPTIONS = [
     'continuations are only inserted where the source already has white space outside string literals and [bracketed names]',
     'existing continued runs of the shipped scripts are kept intact (rewrites apply to the other lines)',
